@@ -98,7 +98,9 @@ def boundary_programs():
 
 
 TRAILERS = {"none": b"", "nul": b"\x00", "garbage": b"garbage.", "pickle": pickle.dumps("next", protocol=2),
-            "opcode-prefix": b"\x80"}
+            "opcode-prefix": b"\x80",
+            # line-oriented storage: one pickle per line (the newline belongs to the caller, not to the pickle)
+            "newline+pickle": b"\n" + pickle.dumps("next", protocol=0), "crlf": b"\r\n"}
 DELIVERIES = ("bytes", "bytearray", "BytesIO", "BytesIO@3", "file", "file-r+b", "spooled", "custom-seekable", "nonseekable",
               "nonseekable-short-reads", "buffered-nonseekable")
 
